@@ -133,6 +133,40 @@ impl<'a> Handle<'a> {
     }
 }
 
+impl<'a> Handle<'a> {
+    /// the Iterator interface of a frame iterator beyond next(): count(), last(), nth(k), size_hint(), and what is
+    /// left after nth(1); each on a fresh iterator for the same frame
+    pub fn adaptors(&'a self, q: &'a OwnedQuery) -> Value {
+        let OwnedQuery::Frame { class, method, line, file, params } = q else { return json!({}) };
+        let f = match (params, file) {
+            (Some(p), _) => StackFrame::with_parameters(class, method, p),
+            (None, Some(file)) => StackFrame::with_file(class, method, *line, file),
+            (None, None) => StackFrame::new(class, method, *line),
+        };
+        macro_rules! run {
+            ($mk:expr) => {{
+                let count = $mk.take(100_000).count();
+                let last = $mk.take(100_000).last().map(|x| enc::frame(&x));
+                let hint = $mk.size_hint();
+                let mut nth = vec![];
+                for k in [0usize, 1, 2, 5, 1000] {
+                    let got = $mk.nth(k).map(|x| enc::frame(&x));
+                    nth.push(json!({"k": k, "got": got.map(|g| vec![g]).unwrap_or_default()}));
+                }
+                let mut it = $mk;
+                let _ = it.nth(1);
+                let rest = it.take(100_000).count();
+                json!({"count": count, "last": last.map(|g| vec![g]).unwrap_or_default(), "nth": nth, "hint_lo": hint.0,
+                       "hint_hi": hint.1.map(|h| vec![h.min(1 << 30)]).unwrap_or_default(), "rest_after_nth": rest})
+            }};
+        }
+        match self {
+            Handle::Mapper(m) => run!(m.remap_frame(&f)),
+            Handle::Cache(c) => run!(c.remap_frame(&f)),
+        }
+    }
+}
+
 fn out_len_ok(_extra: &mut usize) -> bool {
     true
 }
